@@ -327,7 +327,7 @@ def flush_variant_stats(order, rows, n, st, recs):
     return st2
 
 
-def oracle_findings(line, hans):
+def oracle_findings(line, hans, hist=None):
     """Compare one harness answer with the definition.  -> list of (kind, message)."""
     order, thr, excl, rows = parse_case(line)
     ref = definition(order, thr, excl, rows)
@@ -363,6 +363,8 @@ def oracle_findings(line, hans):
         if wrong_adj:
             continue
         want = discounts_of(st)
+        if hist is not None:
+            hist("adjust.discounts", "fallback" if want is FALLBACK else "closed-form")
         if discs_differ(hd, want):
             if near_boundary(st) or near_boundary(flush_variant_stats(order, rows, n, st, recs)):
                 continue
@@ -514,7 +516,7 @@ def _run(ctx, flags, n_cases, hexe, dexe, hexe_name):
         if b != h:
             cf.append(("corr", "blocks", "AdjustCounts output depends on the chain block size (block=%d): %s vs %s" % (small, b[:120], h[:120])))
         # 2. the definition
-        of = [("oracle", k, msg) for k, msg in oracle_findings(line, parse_answer(h))]
+        of = [("oracle", k, msg) for k, msg in oracle_findings(line, parse_answer(h), ctx.hist)]
         for who, kind, msg in cf + of:
             key = (who, kind)
             if key in reported:
